@@ -27,6 +27,7 @@ from pathlib import Path
 sys.path.insert(0, str(Path(__file__).resolve().parent))
 import common as C
 import c08_et as ET
+import c08_ll as LL
 import c08lib as L
 
 PID = "C08"
@@ -949,9 +950,26 @@ def main(tier: str) -> int:
         tdone.append((tc, tobs, eobs))
 
     mark("event_type_cases_on_impl")
+    # ---- the library's own listener classes (EventBasedCounter / EventBasedTally) as listeners, alike in name and state
+    n_l = 800 if tier == "quick" else 12000
+    ldone, l_bad = 0, None
+    l_hist = collections.Counter()
+    for _ in range(n_l):
+        lc = LL.gen_lcase(rng)
+        try:
+            lobs, lf = LL.run_lcase(ps_mod, lc)
+        except Exception as exc:  # noqa
+            run.violation("harness-cannot-run-implementation", f"library-listener case failed: {type(exc).__name__}: {exc}", {"lcase": lc}, found_input=False)
+            return run.finish()
+        ldone += 1
+        for o in lc["ops"]:
+            l_hist[o[0]] += 1
+        if lf and l_bad is None:
+            l_bad = (lc, lf)
+    mark("library_listener_cases_on_impl")
     # ---- the regenerated model no longer equals the proved one: look harder for a concrete failing input
     tie = tree.broken()
-    if tie and not (first_bad or ctor_bad or t_bad):
+    if tie and not (first_bad or ctor_bad or t_bad or l_bad):
         rng2 = random.Random(run.seed * 7919 + 808)
         tried = 0
         for i in range(n_random + n_mal):
@@ -981,13 +999,18 @@ def main(tier: str) -> int:
         mark("extra_search_after_broken_tie")
     run.cov["source_translation"]["tie"] = ({"status": "broken", **{k: v for k, v in tie.items() if k != "failures"}}
                                             if tie else {"status": "checked"})
-    run.cov["evaluations"] = len(done) + len(ctor_in) + len(tdone)
+    run.cov["evaluations"] = len(done) + len(ctor_in) + len(tdone) + ldone
     run.cov["distinct_nontrivial"] = len(nontrivial)
     run.cov["rule"] = (f"{n_random} random + {n_mal} malformed-stream op sequences over {N_PROD} producers x {N_ET} event types x {N_LIS} listeners with scripted "
                        f"re-entrant listeners + all {n_exh} sequences of length <= {exh_len} over a 14-op alphabet with fixed re-entrant listeners "
                        f"+ {len(ctor_in)} Event/TimedEvent constructions (payload shape x metadata x check x timestamp kind) "
                        f"+ {len(tdone)} EventType construction sequences (4 defining sites x names x str/non-str keys x type/non-type values, "
-                       "accepted and refused interleaved) each followed by events against the created types; "
+                       "accepted and refused interleaved) each followed by events against the created types "
+                       f"+ {ldone} add / remove / remove_all / fire / initialize sequences on a producer whose listeners are the library's own "
+                       "EventBasedCounter / EventBasedTally objects, several with the same name and (when subscribed / unsubscribed) the same state, "
+                       "judged by a reference map that identifies a listener by object identity, deliveries read off each object's n() / count() "
+                       "(monitor only, not run through the Gallina model); in the op sequences event types of one case may share their name "
+                       "(defined at different sites); "
                        "non-trivial = distinct op-sequence case containing a completely delivered fire with >= 2 subscribers at the moment of "
                        "firing during which listener programs changed the subscriber list of that event type or fired again")
     run.cov["op_histogram"] = dict(op_hist)
@@ -999,6 +1022,7 @@ def main(tier: str) -> int:
     run.cov["constructions"] = {"total": len(ctor_in), "accepted": n_ctor_acc}
     run.cov["exhaustive_small_scope_sequences"] = n_exh
     run.cov["event_type_constructions"] = dict(t_hist)
+    run.cov["library_listener_cases"] = {"cases": ldone, "op_histogram": dict(l_hist)}
     for case, trace in done[n_corpus:n_corpus + 2]:
         run.add_sample({"case": case, "impl_observations": trace})
 
@@ -1078,6 +1102,25 @@ def main(tier: str) -> int:
                                   "how": "harness/c08_et.py run_tcase: ctors = [defining site, name, metadata] in order; "
                                          "events = [index among created types, timestamp, content, check]"})
 
+    if l_bad:
+        impl_fail = True
+        lc, lf = l_bad
+        sig = lf[0][0]
+
+        def lfailing(c):
+            try:
+                return any(s_ == sig for s_, _ in LL.run_lcase(ps_mod, c)[1])
+            except Exception:
+                return False
+        small = LL.shrink_lcase(lc, lfailing)
+        lobs, lf2 = LL.run_lcase(ps_mod, small)
+        what = ([w for s_, w in lf2 if s_ == sig] or [lf[0][1]])[0]
+        run.violation(sig, what, {"lcase": small, "impl_observations": lobs,
+                                  "how": "harness/c08_ll.py run_lcase: listeners = [class, name] of EventBasedCounter / EventBasedTally objects "
+                                         "(listener i = the i-th object, identified by identity); ops on one EventProducer: [add|remove, event type, listener], "
+                                         "[remove_all, event type|null, listener|null], [fire, value] (DATA_EVENT = type 0), [init, listener] = listener.initialize(), [has]; "
+                                         "observation of a fire = increase of every listener's n()"})
+
     # ---- model vs implementation inside coqc
     d = C.scratch_dir(PID)
     shard = 400
@@ -1142,6 +1185,9 @@ def replay(path: str) -> int:
     if "case" in d:
         trace, findings, _ = run_impl(d["case"])
         print("observations:", json.dumps(trace))
+    elif "lcase" in d:
+        obs_, findings = LL.run_lcase(ps, d["lcase"])
+        print("observations:", json.dumps(obs_))
     elif "tcase" in d:
         to, eo = ET.run_tcase(ps, d["tcase"], me)
         findings = ET.judge_tcase(d["tcase"], to, eo, me)
